@@ -68,7 +68,7 @@ func Exit(c int)                   { realos.Exit(c) }
 func Hostname() (string, error)    { return realos.Hostname() }
 func Getwd() (string, error)       { return realos.Getwd() }
 func IsPathSeparator(c uint8) bool { return realos.IsPathSeparator(c) }
-func SameFile(a, b FileInfo) bool  { return realos.SameFile(a, b) }
+func SameFile(a, b FileInfo) bool  { return realos.SameFile(unwrapInfo(a), unwrapInfo(b)) }
 
 // Res classifies an error for the trace.
 func Res(err error) string {
@@ -167,7 +167,7 @@ func (f *File) WriteAt(b []byte, off int64) (int, error) {
 func (f *File) Read(b []byte) (int, error)              { return f.f.Read(b) }
 func (f *File) ReadAt(b []byte, off int64) (int, error) { return f.f.ReadAt(b, off) }
 func (f *File) Seek(o int64, w int) (int64, error)      { return f.f.Seek(o, w) }
-func (f *File) Stat() (FileInfo, error)                 { return f.f.Stat() }
+func (f *File) Stat() (FileInfo, error)                 { fi, err := f.f.Stat(); return coarse(fi), err }
 func (f *File) Sync() error                             { return f.f.Sync() }
 func (f *File) Chmod(m FileMode) error                  { return f.f.Chmod(m) }
 func (f *File) SetDeadline(t time.Time) error           { return f.f.SetDeadline(t) }
@@ -345,18 +345,39 @@ func ReadDir(name string) ([]DirEntry, error) {
 	return es, err
 }
 
+// The environment has coarse file timestamps (2 s, as on FAT; 1 s on ext3 / HFS+): a whole run happens within one
+// tick, so code that takes an unchanged (size, mtime) for an unchanged file - the "racy git" mistake - is exposed.
+// Code that does not look at timestamps cannot tell the difference.
+type coarseInfo struct{ realos.FileInfo }
+
+func (c coarseInfo) ModTime() time.Time { return c.FileInfo.ModTime().Truncate(2 * time.Second) }
+
+func coarse(fi FileInfo) FileInfo {
+	if fi == nil {
+		return nil
+	}
+	return coarseInfo{fi}
+}
+
+func unwrapInfo(fi FileInfo) FileInfo {
+	if c, ok := fi.(coarseInfo); ok {
+		return c.FileInfo
+	}
+	return fi
+}
+
 func Stat(name string) (FileInfo, error) {
 	sched.Gate("stat", name, "")
 	fi, err := realos.Stat(name)
 	sched.Done("stat", name, "", Res(err), nil)
-	return fi, err
+	return coarse(fi), err
 }
 
 func Lstat(name string) (FileInfo, error) {
 	sched.Gate("stat", name, "")
 	fi, err := realos.Lstat(name)
 	sched.Done("stat", name, "", Res(err), nil)
-	return fi, err
+	return coarse(fi), err
 }
 
 func Mkdir(name string, perm FileMode) error    { return realos.Mkdir(name, perm) }
